@@ -283,3 +283,13 @@ def audit_nested(ctx):
 
 
 GENERATORS = list(globals().get("GENERATORS", [])) + [audit_nested]
+
+
+# --- W18 (nested tier, second part): OdxVerif.Props.C08Nested2 imports Props.C08Nested (same name clash with Proofs/StructStatic.lean),
+# so it takes its place as the separately built + audited module: audit_nested builds it (which builds C08Nested) and prints the
+# axioms of the theorems of both in that one environment.
+NESTED_TARGET = "OdxVerif.Props.C08Nested2"
+EXTRA_LEAN_TARGETS = EXTRA_LEAN_TARGETS + [NESTED_TARGET]
+NESTED_THEOREMS = NESTED_THEOREMS + ["OdxVerif.Codec." + t for t in [
+    "C08_static_length_bytesize", "C08_dynamic_kinds_none", "C08_required_iff_not_omittable2", "C08_required_nested2",
+    "C08_required_nested_depth2", "C08_not_required_nested2", "DDesc.structBS_cursor", "DDesc.structBS_okW", "DescribedP2.fill_none"]]
